@@ -9,6 +9,7 @@
      and the real pass of orc_x86_compile (or is in the reasoned allow-table)
   D4 no emitted immediate is derived from a pointer value
   D5 the compile driver only reads the program (stores limited to the result fields)
+  D7 no emitter advances the emission pointer without writing the bytes it steps over (the compile buffer is not cleared)
   D6 the history carrier D1 tolerates (the code-chunk list) stays a tiling across split/merge (shared with C09-D1), so
      placement history cannot make a later compile overwrite the bytes of a live program
 Byte-for-byte equality of two runs as such is NOT decided.
@@ -251,6 +252,67 @@ def run(ctx):
     # stays a tiling (split/merge identities, shared with C09-D1): a stale link lets a later free merge over a live chunk.
     import importlib
     importlib.import_module("rules.c09").d1(db, rep, "D6-ALLOCATOR-TILING", "D6-ALLOCATOR-TILING")
+
+    # ---- D7: every byte of the emitted range is written --------------------------------------------
+    # The compile buffer is allocated once per compile and NOT cleared; what ends up in the code object is
+    # [code, codeptr).  An emitter that advances codeptr without storing the bytes it steps over (alignment padding,
+    # reserved slots) publishes whatever an earlier, longer compile left there: the machine code then depends on history.
+    fxd = ctx.fixture_db(["codeskip"])
+    got = {f.name: bool(_codeptr_skips(f)) for f in fxd.tu("codeskip").main_functions()}
+    if got != {"skip_bad": True, "skip_good": False, "skip_filled": False}:
+        raise AnalysisBroken("codeptr-skip positive control failed: %s" % got)
+    nsk = 0
+    for f in db.all_functions():
+        if not f.relfile.startswith("orc/"):
+            continue
+        for st, why in _codeptr_skips(f):
+            nsk += 1
+            rep.violation("D7-NO-SKIPPED-BYTES", where(f), "codeptr-advance", "%s advances the emission pointer without writing the bytes it steps over (`%s`): "
+                          "the emitted function contains stale bytes of the compile buffer, i.e. depends on what was compiled before" % (f.name, unparse(st)[:60]), line=st.line)
+    rep.ok("D7-NO-SKIPPED-BYTES", "orc/", "scan", "no emitter advances codeptr without storing (%d offenders); positive control fixtures/codeskip.c as expected" % nsk)
+
+
+def _codeptr_skips(f):
+    """[(statement, reason)] for `X->codeptr += e` / `X->codeptr = X->codeptr + e` not preceded, in the same block, by a
+    memset/memcpy of the same length to the same pointer."""
+    out = []
+    for st in f.walk():
+        tgt = adv = None
+        if st.k == "CompoundAssignOperator" and st.op == "+=" and (access_path(st.c[0]) or "").endswith("codeptr"):
+            tgt, adv = access_path(st.c[0]), unparse(strip_casts(st.c[1]))
+        elif st.k == "BinaryOperator" and st.op == "=" and (access_path(st.c[0]) or "").endswith("codeptr"):
+            r = strip_casts(st.c[1])
+            if r is not None and r.k == "BinaryOperator" and r.op == "+" and access_path(r.c[0]) == access_path(st.c[0]):
+                tgt, adv = access_path(st.c[0]), unparse(strip_casts(r.c[1]))
+        if tgt is None:
+            continue
+        pos = f.pos(st)
+        filled = False
+        if pos is not None:
+            for e in f.blocks[pos[0]].el[:pos[1]]:
+                if e.k == "CallExpr" and e.name in ("memset", "memcpy", "__builtin_memset", "__builtin_memcpy") and access_path(e.args()[0]) == tgt and \
+                        unparse(strip_casts(e.args()[2])) == adv:
+                    filled = True
+        if not filled and pos is not None:
+            # explicit byte stores ptr[0..k-1] (ORC_WRITE_UINT32_LE) or one wide store through a cast of the pointer
+            kv = strip_casts(st.c[1]).v if st.k == "CompoundAssignOperator" else None
+            idx = set()
+            wide = 0
+            for e in f.func_nodes_before(st) if hasattr(f, "func_nodes_before") else [x for b in f.blocks.values() for x in b.el]:
+                if e.line > st.line or e.line < st.line - 12:
+                    continue
+                for w in e.walk():
+                    if w.k == "BinaryOperator" and w.op == "=":
+                        l = strip_casts(w.c[0])
+                        if l is not None and l.k == "ArraySubscriptExpr" and access_path(l.c[0]) == tgt and strip_casts(l.c[1]).v is not None:
+                            idx.add(strip_casts(l.c[1]).v)
+                        if l is not None and l.k == "UnaryOperator" and l.op == "*" and access_path(strip_casts(l.c[0])) == tgt:
+                            wide = max(wide, {"orc_uint32": 4, "unsigned int": 4, "orc_uint16": 2, "orc_uint64": 8}.get((l.get("ty") or "").strip(), 0))
+            if kv is not None and (set(range(kv)) <= idx or wide >= kv):
+                filled = True
+        if not filled:
+            out.append((st, "advance by %s" % adv))
+    return out
 
 
 def _once_guarded(f):
